@@ -18,8 +18,9 @@ the class of the loading node: the same class object / another class object with
 qualified name (a second class from one factory function; the defining module executed again) / an unrelated
 class / a subclass / a superclass -- produced with real classes (`nodes_c19.py`).
 
-The Lean driver runs the model under its three variants (pinned in-place save / the tree as it is / with the
-proposed delete repair) on the same op stream; the tree must correspond to one of them consistently (`diff`).
+The Lean driver runs the model under its three variants (in-place save = before afb726d / atomic save with a delete
+that ignores leftovers = before 1e4658d / atomic save with the sweeping delete = the tree as it is) on the same op
+stream; the tree must correspond to one of them consistently (`diff`).
 The oracle is the property's text and never looks at the model.
 """
 
@@ -243,6 +244,8 @@ def corpus():
     yield _case("wf", "default", [["crash", "ok", 1, 3, "mid"], ["reopen"]])
     # cloudpickle-only save interrupted after the good .pckl was unlinked (pinned: FileNotFoundError)
     yield _case("wf", "default", [["save", "ok", 1], ["crash", "pf", 2, 3, "mid"]])
+    # KF-C19-5: delete when only a leftover exists (before 1e4658d: nothing removed)
+    yield _case("wf", "default", [["crash", "ok", 1, 2, "mid"], ["delete"]])
     # the stale-.pckl trap a replace-only repair would fall into
     yield _case("wf", "default", [["save", "ok", 1], ["save", "pf", 2], ["load"], ["save", "ok", 3], ["reopen"]], True)
     # interrupted FIRST saves (no good save ever): only a leftover exists, under either temporary name, any size;
